@@ -300,7 +300,12 @@ def _do_op(mod, dr, op):
 def real_ops(seed, ops, via_srandom):
     dr, sr, _, _ = _mods()
     if via_srandom:
-        sr.use_deterministic_prng(True, seed)
+        if seed == 0:
+            sr.use_deterministic_prng(True)          # the documented default: an omitted seed means seed 0
+        else:
+            sr.use_deterministic_prng(True, seed)
+        if sr.is_use_deterministic_prng() is not True:
+            return ["(err SwitchNotOn)"] * len(ops)
         mod = sr
     else:
         dr.seed(seed)
